@@ -294,6 +294,9 @@ func NewRelay(to string) (*Relay, error) {
 			if err != nil {
 				return
 			}
+			r.mu.Lock()
+			to := r.to
+			r.mu.Unlock()
 			d, err := net.Dial("tcp", to)
 			if err != nil {
 				_ = c.Close()
@@ -311,6 +314,9 @@ func NewRelay(to string) (*Relay, error) {
 	}()
 	return r, nil
 }
+
+// SetTarget makes the relay forward every later connection to another address.
+func (r *Relay) SetTarget(to string) { r.mu.Lock(); r.to = to; r.mu.Unlock() }
 
 func (r *Relay) pipe(from, to net.Conn, up bool) { r.pipeIdx(from, to, up, -1) }
 
